@@ -13,6 +13,8 @@ import (
 
 	"cosmossdk.io/math"
 
+	authtypes "github.com/cosmos/cosmos-sdk/x/auth/types"
+
 	disputetypes "github.com/tellor-io/layer/x/dispute/types"
 	oracletypes "github.com/tellor-io/layer/x/oracle/types"
 	reportertypes "github.com/tellor-io/layer/x/reporter/types"
@@ -30,6 +32,8 @@ type escrowMonitor struct {
 	knownRounding      int
 	knownRate          int
 	escrowBefore       math.Int
+	claimedOf          map[uint64]math.Int // dispute id -> voter rewards paid out so far
+	potChecks          int
 }
 
 func sumSelectorTips(c *Chain) math.LegacyDec {
@@ -202,6 +206,38 @@ func (m *escrowMonitor) after2(c *Chain, br *BlockResult, outs []TxOutcome, tags
 	if newCredits.GT(math.LegacyNewDecFromInt(inflow).Add(math.LegacyNewDecWithPrec(1, 12))) {
 		return pbt.Violf("C04/credits-exceed-paid-in", "block %d: selectors were credited %s but only %s was paid into the tips escrow pool", br.Height, newCredits, inflow)
 	}
+	// (7) the voter rewards paid out of a dispute never exceed the pot set aside for them at execution
+	disputeAddr := authtypes.NewModuleAddress(disputetypes.ModuleName).String()
+	for _, o := range outs {
+		if !o.OK() || o.Tx.Op.K != OpClaimReward || len(o.Tx.Msgs) != 1 {
+			continue
+		}
+		msg, ok := o.Tx.Msgs[0].(*disputetypes.MsgClaimReward)
+		if !ok {
+			continue
+		}
+		moves, _ := c13ParseMoves(o.Res.Events)
+		paid := math.ZeroInt()
+		for _, mv := range moves {
+			if mv.from == disputeAddr && mv.to == msg.CallerAddress {
+				paid = paid.Add(math.NewIntFromBigInt(mv.amt))
+			}
+		}
+		if m.claimedOf == nil {
+			m.claimedOf = map[uint64]math.Int{}
+		}
+		if _, ok := m.claimedOf[msg.DisputeId]; !ok {
+			m.claimedOf[msg.DisputeId] = math.ZeroInt()
+		}
+		m.claimedOf[msg.DisputeId] = m.claimedOf[msg.DisputeId].Add(paid)
+		if d, err := c.App.DisputeKeeper.Disputes.Get(ctx, msg.DisputeId); err == nil {
+			m.potChecks++
+			if m.claimedOf[msg.DisputeId].GT(d.VoterReward) {
+				return pbt.Violf("C04/voter-rewards-exceed-pot", "block %d: voters have been paid %s out of dispute %d whose voter pot is %s (this claim: %s to %s)",
+					br.Height, m.claimedOf[msg.DisputeId], msg.DisputeId, d.VoterReward, paid, msg.CallerAddress)
+			}
+		}
+	}
 	if br.Finalize != nil {
 		for _, ev := range br.Finalize.Events {
 			if ev.Type == "aggregate_report" && inflow.IsPositive() {
@@ -251,4 +287,42 @@ func TestC04_Escrow(t *testing.T) {
 	runHistoryProp(t, "C04", "TestC04_Escrow",
 		"histories of tips, reports, payouts (tips and time-based rewards), selector joins/leaves, tip withdrawals and disputes over generated reporter/selector topologies and every commission rate CreateReporter accepts; escrow invariants recomputed from the store after every block; non-trivial = >=1 reward payout and >=1 accepted tip withdrawal; distinct by SHA-256 of the history JSON",
 		escrowProfile(), func() Monitor { return &escrowMonitor{} })
+}
+
+// TestC04_EscrowSettlement runs the same escrow invariants over the settlement scenarios of C13 (multi-payer,
+// multi-round disputes in which every payer and voter claims twice and strangers try): the histories in which the
+// dispute account is drawn on most often.
+func TestC04_EscrowSettlement(t *testing.T) {
+	pbt.Run(t, pbt.Prop[History]{Property: "C04", Name: "TestC04_EscrowSettlement",
+		Rule: "settlement scenarios (generator of C13: one dispute per history with 1-5 payers from balance or stake, votes of all groups, optional second round, every payer and voter claims twice, strangers try) under the escrow invariants; non-trivial = >=1 accepted fee refund or reward claim after an executed dispute; distinct by SHA-256 of the history JSON",
+		Gen: func(rt *rapid.T) History { return GenC13(rt, pbt.Thorough()) },
+		Check: func(h History, info *pbt.CaseInfo, st *pbt.Stats) error {
+			mon := &escrowMonitor{}
+			rs, _, v, err := RunHistory(h, mon)
+			if err != nil {
+				return err
+			}
+			claims := rs.ByKindOK[OpFeeRefund] + rs.ByKindOK[OpClaimReward]
+			info.Nontrivial = claims > 0
+			if claims > 0 {
+				info.Classes = append(info.Classes, "claims-paid")
+			}
+			if claims > 3 {
+				info.Classes = append(info.Classes, "claims>3")
+			}
+			st.Count("blocks", int64(rs.Blocks))
+			st.Count("ops_accepted", int64(rs.OpsOK))
+			st.Count("known_rounding_tolerated", int64(mon.knownRounding))
+			st.Count("voter_pot_checks", int64(mon.potChecks))
+			for k, n := range rs.ByKindOK {
+				st.Count("ok/"+k, int64(n))
+			}
+			for k, n := range rs.ByKindFail {
+				st.Count("rejected/"+k, int64(n))
+			}
+			if v != nil {
+				return v
+			}
+			return nil
+		}})
 }
